@@ -24,7 +24,7 @@ TLA_CP = "/opt/veriftools/tla/tla2tools.jar:/opt/veriftools/tla/CommunityModules
 BIG = 1000000
 FAM_MODULE = {"join": "JoinLike", "try_join": "JoinLike", "race": "Race", "race_ok": "Race", "merge": "Merge", "zip": "Zip",
               "chain": "Chain", "wait_until": "WaitUntil", "wait_until_stream": "WaitUntil",
-              "future_group": "Groups", "stream_group": "Groups", "co": "CoStream", "nest_join_join": "Nest", "nest_merge_merge": "NestStream", "nest_race_join": "NestRace", "nest_chain_merge": "NestChain"}
+              "future_group": "Groups", "stream_group": "Groups", "co": "CoStream", "nest_join_join": "Nest", "nest_merge_merge": "NestStream", "nest_race_join": "NestRace", "nest_chain_merge": "NestChain", "nest_group_join": "NestGroup"}
 SKIP_EV = {"new", "built", "end"}
 
 
@@ -54,7 +54,7 @@ def cfg_for(new):
                  limit=new.get("limit", 0), take=new.get("take", -1), nmaps=new.get("nmaps", 0))
         c.update(bud)
         return mod, c, None
-    rdy = fam in ("merge", "zip", "future_group", "stream_group", "nest_join_join", "nest_merge_merge", "nest_race_join", "nest_chain_merge")
+    rdy = fam in ("merge", "zip", "future_group", "stream_group", "nest_join_join", "nest_merge_merge", "nest_race_join", "nest_chain_merge", "nest_group_join")
     if fam == "race_ok":
         shape = "tup" if cont in ("tup", "ext") else cont
     elif fam in ("future_group", "stream_group"):
